@@ -100,6 +100,22 @@ def inproc(ctx):
         cases.append({"cfg": cfg, "forest": fo, "evs": evs, "res": r1, "complete": True})
         cases.append({"cfg": cfg2, "forest": fo, "evs": evs, "res": r2, "complete": True})
         ctx.case(key=("pair", repr(cfg), tuple(evs)), tags=["method-pair"], size=len(evs))
+    # stage-1 specification cases: only -F / -N / -D, every call takes >= 1 tick, default --max-stack
+    selcases = []
+    for i in range(ctx.n(50, 600)):
+        cfg = {"shape": rng.choice(["pg", "cyg"]), "trig": {}, "pattern": rng.choice(["simple", "regex", "glob"])}
+        for k in rng.sample(range(6), rng.randrange(1, 4)):
+            cfg["trig"][k] = {"filter": rng.random() < 0.6}
+        if rng.random() < 0.6:
+            cfg["depth"] = rng.choice([1, 2, 3, 4])
+        fo = F.assign_times(rng, F.gen_shape(rng, 6, rng.choice([5, 12, 25]), 7), durs=(1, 2, 5, 10))
+        evs = F.flatten(fo)
+        res = mcgen.run_case(h, cfg, evs)
+        selcases.append({"cfg": cfg, "forest": fo, "evs": evs, "res": res})
+        cases.append({"cfg": cfg, "forest": fo, "evs": evs, "res": res, "complete": True})
+        ctx.case(key=("sel", repr(cfg), tuple(evs)), tags=["sel-spec", "shape:" + cfg["shape"]] +
+                 ["sel:-F" if any(t["filter"] for t in cfg["trig"].values()) else "sel:no-F",
+                  "sel:-N" if any(not t["filter"] for t in cfg["trig"].values()) else "sel:no-N"], size=len(evs))
     # ---- evaluate in Coq
     terms = [mcgen.case_term(c["cfg"], c["evs"], c["res"]) for c in cases]
     defs = "Definition cases : list case4 := [\n%s\n].\n" % ";\n".join(terms)
@@ -113,7 +129,14 @@ def inproc(ctx):
     pair_terms = ["(%s, %s, %s, %s)" % (F.coq_cfg(p["cfg"], mch.SIZES), F.coq_events(p["evs"]),
                                         mcgen.coq_recs(p["pg"]["recs"]), mcgen.coq_recs(p["cyg"]["recs"])) for p in pairs]
     defs += "Definition pairs : list (cfg * list ev * list seen5 * list seen5) := [\n%s\n].\n" % ";\n".join(pair_terms)
+    sel_terms = ["ok_sel [%s] %s %d %s %s" % (
+        "; ".join("(%d, Some %s)" % (256 * k, coq.coq_bool(t["filter"])) for k, t in sorted(c["cfg"]["trig"].items())),
+        coq.coq_bool(any(t["filter"] for t in c["cfg"]["trig"].values())),
+        c["cfg"].get("depth") if c["cfg"].get("depth") is not None else 1024,
+        F.coq_forest(c["forest"]), mcgen.coq_recs(c["res"]["recs"])) for c in selcases]
+    defs += "Definition selchk : list bool := [\n%s\n].\n" % ";\n".join(sel_terms)
     res = coq.run_cases(ctx, "c05_cases", mcgen.PRE, defs, [
+        ("sel", "bad_indices (fun b : bool => b) selchk 0"),
         ("mismatch", "bad_indices agree4 cases 0"),
         ("leaky", "bad_indices (fun c : case4 => let '(a, b, _, _) := c in negb (leaky a b)) cases 0"),
         ("restore", "bad_indices (fun c : case4 => let '(a, b, o, _) := c in leaky a b || ok_restore b o) cases 0"),
@@ -142,12 +165,17 @@ def inproc(ctx):
         rep(i, "C05: recorded stream is not properly nested (a recorded call lacks a recorded ancestor / depth wrong)")
     for j in R["plain"][:2]:
         rep(plain[j][0], "C05: recorded trace differs from the documented -t/-D semantics")
+    for j in R["sel"][:2]:
+        c = selcases[j]
+        ctx.violation("C05: recorded trace differs from the documented -F/-N/-D semantics (specification sel)",
+                      {"mode": "inproc", "cfg": c["cfg"], "events": c["evs"], "impl_records": c["res"]["recs"],
+                       "env": mch.cfg_env(c["cfg"])}, True)
     for j in R["method"][:2]:
         p = pairs[j]
         ctx.violation("C05: recorded trace depends on the instrumentation method",
                       {"mode": "pair", "cfg": p["cfg"], "events": p["evs"], "pg_records": p["pg"]["recs"],
                        "cyg_records": p["cyg"]["recs"]}, True)
-    if R["mismatch"] and not (R["restore"] or R["nested"] or R["plain"] or R["method"]):
+    if R["mismatch"] and not (R["restore"] or R["nested"] or R["plain"] or R["method"] or R["sel"]):
         c = cases[R["mismatch"][0]]
         ctx.violation("model and libmcount disagree on %d case(s); the C05 checkers accept every explored "
                       "implementation output" % len(R["mismatch"]),
@@ -193,7 +221,9 @@ def e2e(ctx, objdir):
         # options: -F / -N on function classes (suffix _f<k>), -D
         trig = {}
         opts = []
-        ks = rng.sample(range(6), rng.randrange(1, 3))
+        present = sorted({int(n.rsplit("_f", 1)[1]) for n in names.values()})
+        ks = rng.sample(present, min(len(present), rng.randrange(1, 3)))     # a pattern that matches nothing
+                                                                             # does not count as a filter
         for k in ks:
             inc = rng.random() < 0.6
             trig[k] = {"filter": inc}
